@@ -14,6 +14,7 @@ sys.path.insert(0, os.path.dirname(os.path.abspath(__file__)))
 from common import *  # noqa
 from schemalib import schema_lib, schema_harness, p21read_exe
 import p21tok
+import c10
 import popgen
 import translate
 
@@ -72,6 +73,44 @@ def norm_parsed(insts):
             parts = sorted(parts)
         out.append({"id": i["id"], "complex": i["complex"], "parts": parts})
     return out
+
+
+P1_KEYWORDS = " ".join(sorted(e for e in popgen.ENTITIES if e not in popgen.ABSTRACT))
+P1_COMBOS = " ".join("+".join(c) for c in popgen.COMPLEX_LEGAL)
+
+
+def pass1_disagreement(hfile, wdir, data, conforming):
+    """None, or a description of how the model's first pass differs from the reader's; prefixed with UNMODELLED when the
+    model stopped following the reader (then only the instances up to that point are compared)"""
+    k = data.find(b"DATA;")
+    if k < 0:
+        return None
+    fin = os.path.join(wdir, "p1.p21")
+    open(fin, "wb").write(data)
+    rc, out, err = shb([hfile, "read", fin], timeout=90)
+    impl = [(int(l.split()[1]), l.split()[2].upper()) for l in err.decode("latin-1").split("\n") if l.startswith("VERIF-P1 ") and len(l.split()) >= 3]
+    req = "P %s ; %s ; %s\n" % (data[k + 5:].hex(), P1_KEYWORDS, P1_COMBOS)
+    rcm, mo, me = sh([driver("drv_pass1")], input=req.encode(), timeout=120)
+    model, status = [], None
+    for l in mo.split("\n"):
+        p_ = l.split()
+        if p_[:1] == ["C"] and len(p_) >= 3:
+            model.append((int(p_[1]), p_[2].upper()))
+        elif p_[:1] == ["X"]:
+            model.append((int(p_[1]), "(COMPLEX)"))
+        elif p_[:1] == ["END"]:
+            status = p_[1] if len(p_) > 1 else "?"
+    if status is None:
+        return "the model could not be run"
+    if rc < 0:
+        return "the reader died (status %d)" % rc
+    if status == "Unmodelled":
+        if impl[:len(model)] != model:
+            return "UNMODELLED" + "up to where the model stops: model %s, reader %s" % (model[:12], impl[:12])
+        return "UNMODELLED" if not conforming else "the model does not follow the reader on a conforming file (it stops after %d instances)" % len(model)
+    if impl != model:
+        return "model creates %s (%s), the reader %s" % (model[:14], status, impl[:14])
+    return None
 
 
 def judge(hfile, wdir, data, expected_order, header_in=None):
@@ -182,6 +221,7 @@ def main(tier, seed):
     wdir = os.path.join(bdir, "verif-work", "c01-%d" % os.getpid())
     os.makedirs(wdir, exist_ok=True)
     nfiles = 600 if tier == "quick" else 20000
+    p1_hist = {"compared": 0, "unmodelled": 0, "disagreements": 0}
     evals = 0
     nontrivial = 0
     fails = 0
@@ -218,6 +258,25 @@ def main(tier, seed):
             nontrivial += 1
         if len(samples) < 2 and k in (1, 2):
             samples.append(data.decode("latin-1")[:1500])
+        # the first pass on its own: coq/P21Pass1.v (extracted) vs the instances ReadData1 creates (guarded hook VERIF-P1),
+        # on the file and on byte-damaged copies of it (where the model follows the reader: up to the first recovery)
+        for mi_ in range(1 + (2 if tier == "quick" else 8)):
+            if mi_ == 0:
+                pdata, pdesc = data, "conforming"
+            else:
+                pdata, pdesc = c10.mutate_bytes(r, data)
+            bad_p1 = pass1_disagreement(hfile, wdir, pdata, mi_ == 0)
+            evals += 1
+            p1_hist["compared"] += 1
+            if bad_p1 and bad_p1.startswith("UNMODELLED"):
+                p1_hist["unmodelled"] += 1
+                bad_p1 = bad_p1[10:] or None
+            if bad_p1:
+                p1_hist["disagreements"] += 1
+                path = save_case(res, wdir, "pass1-%d-%d-%d.p21" % (seed, k, mi_), pdata)
+                res.violation("model P21Pass1.v and the first pass of the reader disagree (%s): %s" % (pdesc, bad_p1),
+                              {"input_file": path, "replay": "%s read %s" % (hfile, path),
+                               "theorem_or_correspondence": "correspondence C01: coq/P21Pass1.v read_data1 vs STEPfile::ReadData1"}, found_input=False)
         msg = judge(hfile, wdir, data, order)
         if msg:
             fails += 1
@@ -350,6 +409,7 @@ def main(tier, seed):
         "samples": samples or ["(none)"],
         "traces_validated_against_impl": evals,
         "feature_histogram": feature_hist,
+        "first_pass_model": p1_hist,
         "skip_instance_stream": {"texts": skip_cmp, "well_formed_records": skip_wf, "disagreements": skip_dis},
         "token_separator_stream": {"texts": sep_cmp, "separators_followed_by_a_token": sep_wf, "disagreements": sep_dis},
         "oracle_failures": fails,
